@@ -9,6 +9,7 @@ C16Parser.lean, the evaluation part in the end-to-end check.
 import OratioModel
 import Gen.Symbols
 import OratioProofs.Lemmas.Lexer
+import OratioProofs.Lemmas.LexerTable
 import OratioProofs.Properties.C15
 
 namespace Oratio
@@ -36,11 +37,14 @@ theorem C16_keyword_table :
     ∀ e ∈ Gen.symbolTable, e.1 ≠ "THIS" →
       ∃ s, symOfName e.1 = some s ∧
         lex (strInts e.2 ++ [ch ' ']) = .ok [.sym s, .sym .EOF] ∧
-        lex (strInts e.2) = .ok [.sym s, .sym .EOF] := by sorry
+        lex (strInts e.2) = .ok [.sym s, .sym .EOF] := by
+  intro e he h
+  exact rows_of_all Gen.symbolTable ["THIS"] symOfName (by decide +kernel) e he (by simpa using h)
 
 /-- the two boolean literals -/
 theorem C16_bool_literals :
-    lex (strInts "true") = .ok [.bool true, .sym .EOF] ∧ lex (strInts "false") = .ok [.bool false, .sym .EOF] := by sorry
+    lex (strInts "true") = .ok [.bool true, .sym .EOF] ∧ lex (strInts "false") = .ok [.bool false, .sym .EOF] := by
+  constructor <;> decide +kernel
 
 /-- Maximal munch: a run of identifier characters starting with a letter or `_`, followed by a
     character that cannot continue an identifier (or by the end of input), is ONE token: the
@@ -49,20 +53,24 @@ theorem C16_bool_literals :
 theorem C16_ident_vs_keyword (w : List Int) (rest : Stream) (n : Nat)
     (hw : w ≠ []) (h0 : isIdStart (w.headD 0) = true) (hall : ∀ c ∈ w, isIdPart c = true)
     (hr : isIdPart (cur rest) = false) :
-    nextTok (n + 1) (w ++ rest) = .ok (wordTok w, rest) := by sorry
+    nextTok (n + 1) (w ++ rest) = .ok (wordTok w, rest) := by
+  exact nextTok_ident w rest n hw h0 hall hr
 
 /-- `wordTok` is the keyword table: an identifier unless the word is one of the 17 reserved spellings -/
 theorem C16_wordTok_spec (w : List Int) :
-    (∀ k ∈ keywords, strInts k.1 ≠ w) → wordTok w = .id w := by sorry
+    (∀ k ∈ keywords, strInts k.1 ≠ w) → wordTok w = .id w := by
+  exact wordTok_id w
 
 /-- `[0-9]+` denotes that integer (when it fits the integer type) -/
 theorem C16_int_literal (ds : List Int) (rest : Stream) (n : Nat)
     (hd : ds ≠ []) (hall : ∀ c ∈ ds, isDigit c = true)
     (hr : isDigit (cur rest) = false) (hdot : cur rest ≠ ch '.') (hfit : digitsVal ds ≤ longMax) :
-    nextTok (n + 1) (ds ++ rest) = .ok (.int (digitsVal ds), rest) := by sorry
+    nextTok (n + 1) (ds ++ rest) = .ok (.int (digitsVal ds), rest) := by
+  exact nextTok_int ds rest n hd hall hr hdot hfit
 
 /-- the value of a digit string is the decimal number it spells -/
-theorem C16_digitsVal_snoc (ds : List Int) (d : Int) : digitsVal (ds ++ [d]) = digitsVal ds * 10 + (d - ch '0') := by sorry
+theorem C16_digitsVal_snoc (ds : List Int) (d : Int) : digitsVal (ds ++ [d]) = digitsVal ds * 10 + (d - ch '0') := by
+  exact digitsVal_snoc ds d
 
 /-- `[0-9]+ '.' [0-9]*` denotes exactly the decimal it spells, in canonical form -/
 theorem C16_real_literal (i d : List Int) (rest : Stream) (n : Nat)
@@ -70,25 +78,36 @@ theorem C16_real_literal (i d : List Int) (rest : Stream) (n : Nat)
     (hr : isDigit (cur rest) = false) (hdot : cur rest ≠ ch '.') (hlen : d.length ≤ 18)
     (hfit : digitsVal (i ++ d) ≤ longMax) :
     ∃ r, nextTok (n + 1) (i ++ [ch '.'] ++ d ++ rest) = .ok (.real r, rest) ∧ r.WF ∧
-      r.toE = ERat.fin ((digitsVal (i ++ d) : Rat) / ((10 : Rat) ^ d.length)) := by sorry
+      r.toE = ERat.fin ((digitsVal (i ++ d) : Rat) / ((10 : Rat) ^ d.length)) := by
+  refine ⟨R.mk2 (digitsVal (i ++ d)) (10 ^ d.length), nextTok_real i d rest n hi halli halld hr hdot hlen hfit, ?_⟩
+  have hne : (10 : Int) ^ d.length ≠ 0 := by positivity
+  have h := C15_mk2_canonical (digitsVal (i ++ d)) (10 ^ d.length) (fun h => hne h.2)
+  refine ⟨h.1, ?_⟩
+  rw [h.2, if_neg hne]
+  push_cast
+  rfl
 
 /-- white space before a token never changes it -/
 theorem C16_whitespace (ws : List Int) (s : Stream) (n : Nat)
     (hws : ∀ c ∈ ws, isSpace c = true) (hs : isSpace (cur s) = false) (hne : s ≠ []) (hc : cur s ≠ -1) :
-    nextTok (n + 2) (ws ++ s) = nextTok (n + 1) s ∨ ws = [] := by sorry
+    nextTok (n + 2) (ws ++ s) = nextTok (n + 1) s ∨ ws = [] := by
+  exact nextTok_whitespace ws s n hws hs hne hc
 
 /-- a `// …` comment up to the end of the line is skipped -/
 theorem C16_line_comment (body : List Int) (s : Stream) (n : Nat)
     (hb : ∀ c ∈ body, c ≠ ch '\r' ∧ c ≠ ch '\n' ∧ c ≠ -1) :
-    nextTok (n + 2) ([ch '/', ch '/'] ++ body ++ (ch '\n' :: s)) = nextTok (n + 1) (ch '\n' :: s) := by sorry
+    nextTok (n + 2) ([ch '/', ch '/'] ++ body ++ (ch '\n' :: s)) = nextTok (n + 1) (ch '\n' :: s) := by
+  exact nextTok_line_comment body s n hb
 
 /-- a block comment ends at the first `*/`, also when more `*` precede the `/` (`**/`) -/
 theorem C16_block_comment (body : List Int) (k : Nat) (s : Stream) (n : Nat)
     (hb : ∀ c ∈ body, c ≠ ch '*' ∧ c ≠ -1) :
-    nextTok (n + 2) ([ch '/', ch '*'] ++ body ++ List.replicate (k + 1) (ch '*') ++ (ch '/' :: s)) = nextTok (n + 1) s := by sorry
+    nextTok (n + 2) ([ch '/', ch '*'] ++ body ++ List.replicate (k + 1) (ch '*') ++ (ch '/' :: s)) = nextTok (n + 1) s := by
+  exact nextTok_block_comment body k s n hb
 
 /-! ## non-vacuity -/
 example : lex (strInts "typedefx=3.50;//c\n/* a **/ void") =
-    .ok [.id (strInts "typedefx"), .sym .EQ, .real ⟨7, 2⟩, .sym .SEMICOLON, .sym .VOID, .sym .EOF] := by sorry
+    .ok [.id (strInts "typedefx"), .sym .EQ, .real ⟨7, 2⟩, .sym .SEMICOLON, .sym .VOID, .sym .EOF] := by
+  decide +kernel
 
 end Oratio
